@@ -61,6 +61,15 @@ CHECKS = {
             'complete, and a side that completed must get no application data. Blocked endpoints are detected logically '
             '(all threads sleeping in recvfrom, nothing readable), not by wall-clock.',
             '4/C10', TRUSTED),
+    'C11': ('fault_enumeration',
+            'sanitized execution with reference record-protection models predicting the exact protected record '
+            '(interposed entropy supplies the CBC IV), enumerated must-fail neighbourhoods, live replay/reorder/drop proxy',
+            'tls_cbc/tls_record and tls13_gcm/tls13_record encrypt+decrypt over payload lengths 0..16384 (dense in '
+            'thorough), padding 0..255, boundary sequence numbers, exact-size outputs; per short record every bit of body '
+            'and authenticated header, wire-parser truncation/extension, inconsistent/oversized padding, all-padding inner '
+            'plaintext, 60+ other sequence numbers, other keys must fail; after real handshakes duplicated, swapped and '
+            'dropped application-data records must surface no byte at or after the fault.',
+            '4/C11', TRUSTED),
 }
 
 NOT_YET = {}
